@@ -905,6 +905,8 @@ def cases_c(tier):
                 c = dict(m, part='C', rings=rings, nasm=nasm, oftf=0.012 * rings + 0.006)
                 c.pop('field', None)
                 out.append(c)
+                if rings == 2:
+                    out.append(dict(c, ebal=True))      # the energy-balance tally on (reporting only)
     return out
 
 
@@ -920,6 +922,22 @@ def run_case_c(c):
     scn['assign'] = [['A', rg, p, {'flowrate': base_flow * (1.0 + 0.3 * i)}] for i, (rg, p) in enumerate(pos)]
     scn['power']['asm'] = {str(S.asm_id(rg, p) + 1): dict(spec, q=QB * (1.0 + 0.12 * i), seed=i)
                            for i, (rg, p) in enumerate(pos)}
+    twin = None
+    if c.get('ebal'):
+        # the same sweep with the tally off: switching on a tally (reporting only) must leave every reported pin
+        # temperature unchanged
+        import copy as _copy
+        scn0 = _copy.deepcopy(scn)
+        scn0['setup']['calc_energy_balance'] = False
+        twin = {}
+        with S.Built(scn0) as b0:
+            rx0 = b0.reactor()
+            rx0.axial_step0()
+            for i in range(1, min(len(rx0.z) - 1, 25) + 1):
+                rx0.axial_step(rx0.z[i], rx0.dz[i - 1], i)
+                for a in rx0.assemblies:
+                    if hasattr(a.active_region, 'pin_temps'):
+                        twin[(i, int(a.id))] = np.array(a.active_region.pin_temps, dtype=float, copy=True)
     with S.Built(scn) as b:
         rx = b.reactor()
         q = np.array([1.0 / 6.0, 0.25, 1.0 / 6.0])
@@ -931,6 +949,16 @@ def run_case_c(c):
                 reg = a.active_region
                 if not hasattr(reg, 'pin_temps'):
                     continue
+                if twin is not None:
+                    ref_ = twin.get((i, int(a.id)))
+                    dev_ = float('inf') if ref_ is None or ref_.shape != reg.pin_temps.shape else \
+                        float(np.max(np.abs(ref_ - reg.pin_temps)))
+                    if not dev_ <= 1e-9:
+                        V.append(violation('pin-temps-depend-on-tally', dict(c, asm=int(a.id)),
+                                           'after step %d the pin temperatures of assembly %d differ from those of the same '
+                                           'sweep without calc_energy_balance' % (i, a.id), dev_, 0.0, 1e-9,
+                                           site='region_rodded.py:_calc_coolant_int_temp'))
+                        break
                 sc = reg.subchannel
                 typ = sc.type[:sc.n_sc['coolant']['total']]
                 T = reg.temp['coolant_int']
